@@ -684,7 +684,7 @@ def _short(draw):
     if tail == " n. 4":
         tail = ""
     return {"form": "short", "reporter": R, "volume": draw(_volume_for(R)), "page": page, "comma": draw(st.booleans()), "pin_tail": tail,
-            "antecedent": draw(st.one_of(st.just(""), _word, _word, _word.map(lambda w: w + "."), st.sampled_from(["Inc.", "Co.", "Bros.", "Corp.", "Mfg.", "Ass'n."]))), "paren": draw(_paren), "prose": draw(st.integers(0, 4)), "term": draw(st.integers(0, 3)),
+            "antecedent": draw(st.one_of(st.just(""), _word, _word, _word.map(lambda w: w + "."), st.sampled_from(["Inc.", "Co.", "Bros.", "Corp.", "Mfg."]))), "paren": draw(_paren), "prose": draw(st.integers(0, 4)), "term": draw(st.integers(0, 3)),
             "long": draw(st.sampled_from([0, 0, 0, 45, 70, 120])), "at_start": draw(st.integers(0, 5)) == 0}
 
 
